@@ -1,6 +1,7 @@
 import Setec.Driver.DBDrv
 import Setec.Model.Store
 import Setec.Model.CacheDoc
+import Setec.Model.Cadence
 import Setec.Generated.Facts
 /- Driver for the `store` trace family (C10, C11, C13, C19, sequential part of C16/C12). -/
 namespace Setec.Driver
@@ -154,9 +155,10 @@ def storeLine (st : StoreRun) (lineNo : Nat) (line : String) : Except String (St
     let i : Int := (get "interval").toInt?.getD 0
     let polls : List Int := ((get "polls").splitOn ",").filterMap String.toInt?
     let tag := s!"line={lineNo} interval={i}ns polls={get "polls"}"
-    let gaps : List Int := (polls.zip (0 :: polls)).map fun (a, b) => a - b
-    let within := fun (g : Int) => i - i / 10 ≤ g && g ≤ i + i / 10
-    let o1 := if polls.length ≥ 3 && gaps.all within then [] else
+    let gaps : List Int := Setec.Cadence.gaps 0 polls
+    -- the clause itself is `Cadence.cadenceOK`, proved sound and complete for a ticker of constant
+    -- period in Proofs/Cadence and for the generated period expression in C11
+    let o1 := if Setec.Cadence.cadenceOK i polls then [] else
       [s!"PROPFAIL C11 cadence {tag} background polls must come once per interval within a tenth of it on either side"]
     -- model: the period is the generated expression for some draw in range, the same for every tick
     let p1 := polls.headD 0
